@@ -10,6 +10,7 @@ import PonyVerif.Lemmas.TranslateMain
 import PonyVerif.Props.C01
 import PonyVerif.Lemmas.TupleCmp
 import PonyVerif.Model.QTemporal
+import PonyVerif.Lemmas.Subquery
 namespace PonyVerif.Props.C02
 open PonyVerif.Model.Q PonyVerif.Props.C01
 
@@ -124,6 +125,20 @@ theorem C02_tuple_checker_sound (L : LikeFn) (d : Dialect) (env : SEnv) (op : Cm
 example : pyTupleCmp .le [(1, 2), (5, 0), (0, 0)] = true := by decide
 /-- the clause that a lost `a1 = b1` guard would wrongly satisfy: `(3, 1, 0) <= (2, 1, 5)` is false -/
 example : pyTupleCmp .le [(3, 2), (1, 1), (0, 5)] = false := by decide
+
+/-! ### `count()` over a collection path ending in an optional (composite) reference: the SQLite derived table -/
+
+/-- **C02_count_distinct_guarded** — SQLite has no multi-column COUNT(DISTINCT a, b): with the translator's inner conditions
+    (`a IS NOT NULL AND b IS NOT NULL`) kept in the derived table, `SELECT COUNT(*) FROM (SELECT DISTINCT a, b …)` is, for every list of
+    (possibly missing) reference values, the number of distinct PRESENT values — what COUNT(DISTINCT (a, b)) of PostgreSQL,
+    COUNT(DISTINCT a, b) of MySQL and Python's `len({x for x in … if x is not None})` give. -/
+theorem C02_count_distinct_guarded {α} [DecidableEq α] (vals : List (Option α)) :
+    sqlCountDistinctRows true vals = pyCountDistinct vals := by
+  simp only [sqlCountDistinctRows, if_true, pyCountDistinct, filter_isSome_eq_map, dedupL_map_some, List.length_map]
+
+/-- without the guard the all-NULL row value of the members whose reference is missing counts as one more distinct value -/
+theorem C02_count_distinct_unguarded_witness :
+    sqlCountDistinctRows false [some (1, 2), none, some (1, 2)] = 2 ∧ pyCountDistinct [some (1, 2), none, some (1, 2)] = 1 := by decide
 
 /-! ### date / time constants on SQLite: inline literal vs bound parameter -/
 
